@@ -135,7 +135,10 @@ def line_as(rng, t, *bumps):
         if isinstance(b, TD):
             parts.append('(%s I:%d)' % (rng.choice(['L', 'Lpd', 'Lnp']), b // proto.US))
         elif isinstance(b, int) and not isinstance(b, bool):
-            w = rng.choice(['int8', 'int16', 'int32', 'int64']) if -128 <= b <= 127 else rng.choice(['int16', 'int32', 'int64'])
+            # (review5 w3 §2-4: since e030b7f is_int admits np.longlong and the unsigned kinds too)
+            ws = (['int8'] if -128 <= b <= 127 else []) + ['int16', 'int32', 'int64', 'longlong']
+            ws += ((['uint8'] if b <= 255 else []) + ['uint16', 'uint32', 'uint64', 'ulonglong']) if b >= 0 else []
+            w = rng.choice(ws)
             parts.append('(NPI %s I:%d)' % (w, b) if rng.random() < 0.6 else enc(b))
         else:
             parts.append(enc(b))
